@@ -20,6 +20,7 @@ pub fn dispatch(op: &str, case: &Value) -> Value {
         "scan" => op_scan(case),
         "response" => op_response(case),
         "response_headers" => op_response_headers(case),
+        "ws_handshake" => op_ws_handshake(case),
         _ => json!({"error": format!("unknown op {}", op)}),
     }
 }
@@ -733,6 +734,65 @@ fn op_response_headers(case: &Value) -> Value {
             });
             got.sort(); want.sort();
             json!({"as_specified": status == 200 && got == want && per_name_order, "status": status, "headers": hs})
+        }
+    }
+}
+
+// ---------------------------------------------------------------------------------- C20
+#[dropshot::channel { protocol = WEBSOCKETS, path = "/ws" }]
+async fn ws_channel(
+    _rqctx: RequestContext<()>,
+    upgraded: dropshot::WebsocketConnection,
+) -> dropshot::WebsocketChannelResult {
+    // echo raw bytes until the peer closes
+    use tokio::io::{AsyncReadExt, AsyncWriteExt};
+    let mut raw = upgraded.into_inner();
+    let mut buf = [0u8; 1024];
+    loop {
+        match raw.read(&mut buf).await {
+            Ok(0) | Err(_) => break,
+            Ok(n) => { if raw.write_all(&buf[..n]).await.is_err() { break; } }
+        }
+    }
+    Ok(())
+}
+
+/// {"op":"ws_handshake","headers":{"connection":s|null|"non-ascii","upgrade":..,"version":s|null,"key":s|null}}
+fn op_ws_handshake(case: &Value) -> Value {
+    use base64::Engine;
+    use sha1::Digest;
+    let h = &case["headers"];
+    let mut rq = b"GET /ws HTTP/1.1\r\nHost: replay\r\n".to_vec();
+    let mut add = |name: &str, v: &Value| {
+        if let Some(s) = v.as_str() {
+            rq.extend_from_slice(name.as_bytes());
+            rq.extend_from_slice(b": ");
+            if s == "non-ascii" { rq.extend_from_slice(&[0xf0, 0x9f, 0x98, 0x80]); } else { rq.extend_from_slice(s.as_bytes()); }
+            rq.extend_from_slice(b"\r\n");
+        }
+    };
+    add("Connection", &h["connection"]);
+    add("Upgrade", &h["upgrade"]);
+    add("Sec-WebSocket-Version", &h["version"]);
+    add("Sec-WebSocket-Key", &h["key"]);
+    rq.extend_from_slice(b"\r\n");
+    let mut api = ApiDescription::new();
+    api.register(ws_channel).unwrap();
+    let resp = crate::live::serve_raw(api, 1024, vec![vec![rq]]);
+    match resp.into_iter().next().flatten() {
+        None => json!({"status": 0}),
+        Some(r) => {
+            let want = h["key"].as_str().map(|k| {
+                let mut s = sha1::Sha1::default();
+                s.update(k.as_bytes());
+                s.update(b"258EAFA5-E914-47DA-95CA-C5AB0DC85B11");
+                base64::engine::general_purpose::STANDARD.encode(s.finalize())
+            });
+            let acc = r.header_all("sec-websocket-accept");
+            let conn: Vec<String> = r.header_all("connection").iter().map(|s| s.to_ascii_lowercase()).collect();
+            let upg: Vec<String> = r.header_all("upgrade").iter().map(|s| s.to_ascii_lowercase()).collect();
+            let accept_ok = r.status == 101 && want.is_some() && acc == vec![want.clone().unwrap()] && conn == vec!["upgrade"] && upg == vec!["websocket"];
+            json!({"status": r.status, "accept": acc, "expected_accept": want, "accept_ok": accept_ok})
         }
     }
 }
